@@ -102,8 +102,8 @@ MODEL = dict(
              thorough=dict(Depth=4),
              invariants=["NoViolation", "Refines"]),
         dict(name="roles_open", module="MC_TimelockController",
-             constants=dict(_c, SchedOps={"E"}, SchedWhos={"p", "s"}, ExecWhos={"none", "s"}, Auths={True, False},
-                            Calls={"rvPp", "grPs"}, MetaLens={1}, Delays={0}, Min0=0, Depth=4),
+             constants=dict(_c, SchedOps={"E", "GP", "RP"}, SchedWhos={"p", "s"}, ExecWhos={"none", "s"}, Auths={True, False},
+                            Calls={"rvPp", "grPs"}, MetaLens={1}, Delays={0}, Min0=0, DTs={0}, Depth=4),
              thorough=dict(Depth=5),
              invariants=["NoViolation", "Refines"]),
         # predecessor chains: U0p needs the external operation E executed first
